@@ -3,9 +3,13 @@ import Driver.Graph
 import Driver.Core
 import Driver.C18
 import Driver.C14
+import Driver.C15
+import Driver.C12
+import Driver.C19
+import Driver.C20
 open Cspuz Cspuz.Drv
 
-def handlers : List (Sexp → Option Sexp) := [handleC13, handleGraph, handleCore, handleC18, handleC14]
+def handlers : List (Sexp → Option Sexp) := [handleC13, handleGraph, handleCore, handleC18, handleC14, handleC15, handleC12, handleC19, handleC20]
 
 def handle (s : Sexp) : Sexp :=
   match s with
